@@ -50,8 +50,9 @@ type callInfo struct {
 	n     int
 }
 type runInfo struct {
-	calls [][]*callInfo
-	final [2][]int
+	calls    [][]*callInfo
+	final    [2][]int
+	finalLen [2]int // Len() of each set after the run, at quiescence
 }
 
 func coqCall(s CallSpec) string {
@@ -120,6 +121,7 @@ func execute(cs Case, choose sched.Chooser) (sched.Result, *runInfo) {
 	for i := range sets {
 		info.final[i] = sets[i].Slice()
 		sort.Ints(info.final[i])
+		info.finalLen[i] = sets[i].Len()
 	}
 	return r, info
 }
@@ -561,6 +563,10 @@ func oracle(c *core.Ctx, cs Case, r sched.Result, info *runInfo) string {
 	}
 	end := len(r.Steps) + 1
 	for s := 0; s < 2; s++ {
+		// at quiescence Len is the number of members (C05_set_counts_quiescent / C05_len_constant)
+		if info.finalLen[s] != len(info.final[s]) {
+			return fmt.Sprintf("set %d: Len() = %d at quiescence, the set has %d members", s, info.finalLen[s], len(info.final[s]))
+		}
 		// conservation: successful adds - successful removes = final size (counts of AddSet/RemoveSet included)
 		if adds[s]-removes[s] != len(info.final[s]) {
 			return fmt.Sprintf("set %d: %d successful adds - %d successful removes != final size %d", s, adds[s], removes[s], len(info.final[s]))
